@@ -112,6 +112,12 @@ def realval(x):
     if isinstance(x, (int, np.integer)) and not isinstance(x, (bool, np.bool_)):
         return z3.RealVal(int(x))
     fr = Fraction(float(x))
+    if fr.denominator > 2 ** 20:
+        # a float literal / quotient such as 0.1 or (w-1)/w denotes the intended rational: use the
+        # simplest fraction that rounds to the same double (ideal real semantics; rounding is outside the model)
+        cand = fr.limit_denominator(10 ** 6)
+        if abs(cand - fr) <= 4 * Fraction(math.ulp(float(x))):
+            fr = cand
     if fr.denominator == 1:
         return z3.RealVal(fr.numerator)
     return z3.RealVal(f"{fr.numerator}/{fr.denominator}")
